@@ -74,10 +74,16 @@ pub fn session_roots(seed: u64, n: usize) -> Vec<History> {
         if !has_legal_move(&base) {
             continue;
         }
-        let h = match rng.below(3) {
+        let h = match rng.below(5) {
             0 => History { start: base.clone(), moves: vec![], end: base },
-            1 => make_history(&base, &mut rng, 30, 0, 0),
-            _ => make_history(&base, &mut rng, 10, 1, 3),
+            1 | 2 => make_history(&base, &mut rng, 30, 0, 0),
+            3 => make_history(&base, &mut rng, 10, 1, 3),
+            // the root itself has been on the board before (the history ends with complete
+            // shuffle cycles): a game that is not over although a position has recurred
+            _ => {
+                let cycles = 1 + rng.below(3) as usize;
+                make_history(&base, &mut rng, 8, cycles, 0)
+            }
         };
         if has_legal_move(&h.end) {
             out.push(h);
